@@ -347,7 +347,9 @@ def tensordot(lhs, rhs, axes=2):
         return intermediate
     else:
         left_axes = [ax if ax >= 0 else lhs.ndim + ax for ax in left_axes]
-        return intermediate.sum(axis=left_axes)
+        # reduce in the dtype of the product: sum() alone widens bool and
+        # sub-64-bit integers to the platform integer, unlike np.tensordot
+        return intermediate.sum(axis=left_axes, dtype=dt)
 
 
 @derived_from(np, ua_args=["out"])
@@ -470,7 +472,7 @@ def matmul(a, b):
     # this issue: https://github.com/dask/dask/issues/6874
 
     # We will also perform the reduction without concatenation
-    out = _sum_wo_cat(out, axis=-2)
+    out = _sum_wo_cat(out, axis=-2, dtype=out.dtype)
 
     if a_is_1d:
         out = out.squeeze(-2)
